@@ -86,6 +86,28 @@ pub fn generate(rng: &mut Rng, thorough: bool) -> Vec<String> {
         for day in days {
             let day = day.clamp(lo, hi);
             let (y, m, d) = ymd_of(day);
+            // updating a date from its own fields, from a partial record; its year-month
+            match rng.below(6) {
+                0 => v.push(format!("cal_withid {cal} {y} {m} {d}")),
+                // (the first day of the month of the first representable days lies in a month outside the limits)
+                1 if day > -100_000_001 + 40 => v.push(format!("cal_toymc {cal} {y} {m} {d}")),
+                2 if modelled => v.push(format!("cal_toym {cal} {y} {m} {d}")),
+                3 if modelled => {
+                    let (era, ey, year) = match rng.below(4) {
+                        0 => ("-".to_string(), "-".to_string(), "-".to_string()),
+                        1 => ("-".to_string(), "-".to_string(), rng.pick(&[1i128, 5, 1400, 1445, 2020, 2567, 0, -1, -500, 300000, 300001]).to_string()),
+                        2 => (rng.pick(&ERAS).to_string(), rng.pick(&[1i128, 2, 31, 64, 1400, 2020, 0]).to_string(), "-".to_string()),
+                        _ => (if rng.chance(1, 2) { "-".to_string() } else { rng.pick(&ERAS).to_string() }, if rng.chance(1, 2) { "-".to_string() } else { "5".to_string() }, if rng.chance(1, 2) { "-".to_string() } else { "1400".to_string() }),
+                    };
+                    let era = if cal == "iso8601" && era == "default" { "ce".to_string() } else { era };
+                    let month = if rng.chance(2, 3) { "-".to_string() } else { rng.range(0, 14).to_string() };
+                    let code = if rng.chance(2, 3) { "-" } else { *rng.pick(&["M01", "M02", "M05", "M05L", "M06", "M12", "M13", "M14"]) };
+                    let dd = if rng.chance(1, 2) { "-".to_string() } else { rng.pick(&[1i128, 5, 28, 29, 30, 31, 32, 0]).to_string() };
+                    let ov = rng.pick(&["constrain", "reject", "-"]);
+                    v.push(format!("cal_with {cal} {y} {m} {d} {era} {ey} {year} {month} {code} {dd} {ov}"));
+                }
+                _ => {}
+            }
             if modelled {
                 match rng.below(5) {
                     0 => v.push(format!("cal_fields {cal} {y} {m} {d}")),
@@ -130,6 +152,9 @@ pub fn generate(rng: &mut Rng, thorough: bool) -> Vec<String> {
             if !modelled && (far(&year) || far(&ey)) {
                 continue;
             }
+            if modelled && rng.chance(1, 2) {
+                v.push(format!("cal_ymfrom {cal} {era} {ey} {year} {month} {code} {day} {ov}"));
+            }
             if modelled {
                 v.push(format!("cal_from {cal} {era} {ey} {year} {month} {code} {day} {ov}"));
             } else {
@@ -165,6 +190,17 @@ fn partial(cal: &Calendar, era: &str, ey: &str, year: &str, month: &str, code: &
     p.month = if month == "-" { None } else { Some(i(month) as u8) };
     p.day = if day == "-" { None } else { Some(i(day) as u8) };
     Ok(p)
+}
+
+/// the circumstances under which the known defects of a dependency show: a day numbered 0, an era of the
+/// library's historic Japanese table
+fn date_marks(d: &PlainDate) -> String {
+    format!(
+        "{}{}{}",
+        if d.day() == 0 { "@day0" } else { "" },
+        if d.year() <= 0 { "@y<=0" } else { "" },
+        if d.era().map(|e| e.as_str().bytes().any(|b| b.is_ascii_digit())).unwrap_or(false) { "@historic" } else { "" }
+    )
 }
 
 fn pair(t: &[&str]) -> String {
@@ -230,6 +266,57 @@ pub fn eval(t: &[&str]) -> Option<String> {
                 format!("code={} month={} era={} iso={}", mark(same(a), false), mark(same(b), true), e, w)
             }),
             |s| s,
+        ),
+        "cal_with" => render(
+            // cal_with cal y m d  era ey year month code day ov : date.with(partial)
+            iso(i(t[2]), i(t[3]), i(t[4]), t[1]).and_then(|d| {
+                let mut p = partial(d.calendar(), t[5], t[6], t[7], t[8], t[9], t[10])?;
+                p.calendar = Calendar::default();
+                d.with(p, if t[11] == "-" { None } else { Some(overflow(t[11])) })
+            }),
+            |d| format!("{} {} {}", d.iso_year(), d.iso_month(), d.iso_day()),
+        ),
+        "cal_withid" => {
+            // applying a date's own day to itself; a failure is marked with the circumstance of the date
+            let d = match iso(i(t[2]), i(t[3]), i(t[4]), t[1]) { Ok(d) => d, Err(e) => return Some(format!("err {}", err_kind(&e))) };
+            let mut p = PartialDate::default();
+            p.day = Some(d.day());
+            match d.with(p, Some(ArithmeticOverflow::Reject)) {
+                Ok(r) => format!("ok {} {} {}", r.iso_year(), r.iso_month(), r.iso_day()),
+                Err(e) => format!("err {}{}", err_kind(&e), date_marks(&d)),
+            }
+        }
+        "cal_toym" => render(
+            iso(i(t[2]), i(t[3]), i(t[4]), t[1]).and_then(|d| d.to_plain_year_month()),
+            |ym| ym.to_ixdtf_string(temporal_rs::options::DisplayCalendar::Never),
+        ),
+        "cal_toymc" => {
+            // the year-month of a date is the first day of the date's calendar month
+            let d = match iso(i(t[2]), i(t[3]), i(t[4]), t[1]) { Ok(d) => d, Err(e) => return Some(format!("err {}", err_kind(&e))) };
+            let r = d.to_plain_year_month().and_then(|ym| {
+                let mut s = ym.to_ixdtf_string(temporal_rs::options::DisplayCalendar::Never);
+                if d.calendar().identifier() == "iso8601" { s.push_str("-01"); }
+                // the first day of the first representable month lies before the first representable day
+                if s.starts_with("-271821-04-") { return Ok("first-of-month".to_string()); }
+                let first = PlainDate::from_str(&s)?.with_calendar(d.calendar().clone())?;
+                let mut bad = Vec::new();
+                if first.year() != d.year() { bad.push(format!("year {}!={}", first.year(), d.year())); }
+                if first.month_code() != d.month_code() { bad.push(format!("code {}!={}", first.month_code().as_str(), d.month_code().as_str())); }
+                if first.day() != 1 { bad.push(format!("day {}", first.day())); }
+                if ym.year() != d.year() || ym.month_code() != d.month_code() || ym.month() != d.month() { bad.push("getters".to_string()); }
+                Ok(if bad.is_empty() { "first-of-month".to_string() } else { format!("MISMATCH {}", bad.join(",")) })
+            });
+            match r {
+                Ok(s) => format!("ok {s}{}", if s.starts_with("MISMATCH") { date_marks(&d) } else { String::new() }),
+                Err(e) => format!("err {}{}", err_kind(&e), date_marks(&d)),
+            }
+        }
+        "cal_ymfrom" => render(
+            Calendar::from_str(t[1]).and_then(|cal| {
+                let p = partial(&cal, t[2], t[3], t[4], t[5], t[6], t[7])?;
+                temporal_rs::PlainYearMonth::from_partial(p, overflow(t[8]))
+            }),
+            |ym| ym.to_ixdtf_string(temporal_rs::options::DisplayCalendar::Never),
         ),
         "cal_from" => render(
             Calendar::from_str(t[1]).and_then(|cal| {
